@@ -376,7 +376,7 @@ class CliGen:
         return [{"k": "consts", "specs": [{"names": [n + "One", n + "Uno"], "typ": n, "vals": True}, {"names": ["_", n + "Two"]},
                                          {"names": [n + "Free"], "vals": True}, {"names": [n + "Free2"]}]}]
 
-    def package(self, cmd, nfiles=None, n_elig=None, extra=(), colocate=False):
+    def package(self, cmd, nfiles=None, n_elig=None, extra=(), colocate=False, suffix_names=False):
         """returns a package description; `extra` = shapes: tparam-other-file, tparam-same-file, local-type,
         recv-tparam, univ-embed, grouped"""
         r = self.rng
@@ -402,7 +402,11 @@ class CliGen:
         decls = elig + inel
         r.shuffle(decls)
         files = [{"name": "%s.go" % fn, "comments": [], "decls": []} for fn in ["a", "b", "c", "d"][:nfiles]]
-        if r.random() < 0.3:
+        if suffix_names:
+            # file names that END with another file's name: -file=item.go must not pick up lineitem.go
+            for f, nm in zip(files, ["item.go", "lineitem.go", "sub_item.go", "item.go.go"]):
+                f["name"] = nm
+        elif r.random() < 0.3:
             files[0]["name"] = r.choice(["model.go", "types_gen.go", "a_b.c.go"])
         struct_names = [t["name"] for t in decls if isinstance(t, dict) and t["shape"] == "struct" and not t.get("tparams")]
         iface_names = [t["name"] for t in decls if isinstance(t, dict) and t["shape"] == "iface"]
